@@ -104,11 +104,12 @@ CHECKS['C02'] = dict(
         'makes progress; any sequence of packets of <= 16 fragments accepted while the receiver is at most 3 packets behind is handed to '
         'uncompress() exactly once each, complete, in the order accepted, after exactly n rounds per packet, ending synchronised; from any '
         'state reachable under N* with a packet in flight and the receiver at most 4 behind the packet is completed within n-j rounds '
-        '(upstream). (B) for every state of the client model, four consecutive select timeouts end the sending state and the select timeout is '
+        '(both directions). (B) for every state of the client model, four consecutive select timeouts end the sending state and the select timeout is '
         'positive and bounded. NOT proved: bounded TIME for the composition of both select loops with the network, the server sweep / lazy hold, '
-        'downstream recovery from arbitrary states, resynchronisation when 5..8 packets behind. Those are decided by correspondence of '
+        'resynchronisation when 5..8 packets behind. Those are decided by correspondence of '
         'Client.v/Server.v/Tunnel.v with the real programs on random fault schedules in virtual time plus an implementation-level oracle: '
-        'clean-path exactly-once-in-order, and after a fault prefix delivery resumes (at most 4 leading packets lost) within the schedule.',
+        'clean-path exactly-once-in-order, after a fault prefix delivery resumes (at most 4 leading packets lost); and a loop-level timed oracle: the real '
+        'client_tunnel()/tunnel() select loops as coroutines over a virtual clock with fault windows and periodic tun offers.',
    note='Trusts: abstraction of the concrete models to the abstract protocols (inspection + rule-tie lemmas of C01); virtual time (wrapped '
         'time/select) stands for real time; one client session; zlib as oracle; Coq kernel; translator; extraction; gcc.',
    technique='Coq proof (progress/exactly-once by induction over clean rounds; timer state machine lemmas) + whole-system differential correspondence and timed oracle on the real programs',
@@ -124,6 +125,75 @@ CHECKS['C14'] = dict(
         'Coq kernel; translator; extraction; gcc.',
    technique='Coq proof (ledger invariant by Permutation/multiset counting over every handler, induction over histories), differential correspondence, implementation-level multiset oracle',
    design='4/C14')
+CHECKS['C09'] = dict(
+   text='Coq theorems for all seven record types, every downstream codec letter, every well-formed question name and every payload of >= 2 bytes: '
+        'what the client extracts from the answer write_dns builds is always a prefix of the payload with the question id/type/first name byte '
+        'echoed (C09_prefix); it is the whole payload exactly when the length is within a proved capacity table (NULL/PRIVATE 4096; TXT '
+        '2559/3071/3071/3583/4095; CNAME/A 153/183/183/214/153; MX/SRV >= 4096), tight for the single-record types; exactness is monotone '
+        '(a shorter payload is delivered whenever a longer one is); the server always sends; the datagram size is a closed form and monotone in the '
+        'payload (used by C11/C15). Tied to write_dns/dns_encode/read_dns_withq/dns_namedec by a two-phase run: every length on the real code with '
+        'an oracle, then the model on the boundary subset.',
+   note='Trusts: MX/SRV with a 4096-byte client buffer and payloads 2296..4096 (truncating case) is covered by the run, not by a theorem; payloads above 4096 '
+        'outside the quantifier; Coq kernel; translator; extraction; gcc.',
+   technique='Coq proof (encode/decode round trip per record type, tiling of TXT strings and host-name labels, capacity arithmetic), differential correspondence + implementation oracle',
+   design='4/C09')
+CHECKS['C12'] = dict(
+   text='Coq theorems for every datagram dat and ANY two residues res1, res2 behind it in the receive buffer: readname, readtxtbin, readshort/readlong, '
+        'dns_decode of queries and of answers (every type branch), client_extract, dns_get_id, the raw-frame views and the whole server step and client '
+        'tunnel step give identical results on dat++res1 and dat++res2, equal to the step on dat alone; every byte of a decoded query name is a byte of the '
+        'datagram or a dot; the echoed question of every answer is residue-independent. Tied to the C by runs that decode each datagram over several different '
+        'residues (including the real tail of a longer predecessor) and by server/client histories with short-after-long datagrams; ASan at the thorough tier.',
+   note='Trusts: the buffer abstraction (a C read at index i is rb buf i; reads past the buffer end are observed by ASan only); the client step theorem '
+        'rests on a copy of the body of Client.tunnel_dns tied by a reflexivity lemma; Coq kernel; translator; extraction; gcc.',
+   technique='Coq proof (congruence of every decoder under agreement on the datagram prefix, lifted to the server and client steps), differential correspondence over varied residues',
+   design='4/C12')
+CHECKS['C06'] = dict(
+   text='Coq theorems for all inputs about the client-side decoders and the client tunnel model: every write stays within its destination (decoded answers, '
+        'readname, readtxtbin, the 250x256 MX name array and its output loop, dns_namedec including its trailing NUL), fuel adequacy / termination of every '
+        'loop with explicit work bounds, the reassembly buffer and counters stay in range over arbitrary event histories (given zlib output fits its buffer), and '
+        'a reply that matches none of the recent queries leaves the tunnel state unchanged and writes nothing to tun. Tied to the C by decoder, tunnel-history '
+        'and scripted-handshake runs, all under ASan/UBSan; the handshake functions have no model and are covered by the sanitizer runs only.',
+   note='Trusts: ASan/UBSan as the memory-safety observer for code without a model (handshake functions, tun_setip, libc, zlib); per-datagram work bound is '
+        'prose over formal pieces; Coq kernel; translator; extraction; gcc/clang runtime.',
+   technique='Coq proof (bounds invariants of the decoder models, fuel adequacy, state invariant by induction over events), differential correspondence, sanitizer runs',
+   design='4/C05-C06')
+CHECKS['C11'] = dict(
+   text='Coq theorems over the relay family (case keep/lower/upper/random x 8-bit clean/strip/reject x punctuation keep/mangle +/mangle _, on either side, size '
+        'limits, EDNS0, record-type sets): the test patterns cover every alphabet character a deterministic relay can alter (by reflection over the 27 members), '
+        'so the upstream codec selected survives the query side for every payload (via the C07 round trip); the downstream codec selected delivers every payload '
+        'except Raw over TXT with "+" mangling (refuted with witness = known finding); Base32 survives all 36 members; the fragment-size binary search returns a size '
+        'whose answers pass the limit (given C09 size monotonicity); every autodetect falls back to Base32/least type rather than failing. Decision logic, pattern '
+        'strings, orders and probe constants are re-read from the source; the model predicts (rv, type, codecs, EDNS0, fragsize) of the REAL client_handshake run '
+        'through a relay harness, and an oracle sends packets over the negotiated settings.',
+   note='Trusts: the relay semantics of harness/h_handshake.c as the reading of the family; retry/time-out sequencing, lazy and raw sub-handshakes validated by '
+        'runs only; random-case downstream half assumes the alteration was visible in the replies; three known findings (all forced options or the protocol constant); '
+        'Coq kernel; translator; extraction; gcc.',
+   technique='Coq proof (reflection over the finite relay family for coverage, lifted to all payloads by the codec round trip; binary-search invariant), differential correspondence against the real handshake through a relay, delivery oracle',
+   design='4/C11')
+CHECKS['C03'] = dict(
+   text='Coq theorems over the server model for every state, event and oracle (login, zlib unconstrained): a session becomes authenticated only by a login '
+        'request naming it whose 16 response bytes equal login(password, the seed currently stored in that slot), from the slot\'s source, within its lifetime; '
+        'raw authentication only by a raw login frame with login(seed+1) on an already authenticated slot; a version request that (re)claims a slot clears '
+        'authentication, raw authentication, the options lock and draws a fresh seed; every privileged effect (tun write, option/codec/fragsize change, switch to '
+        'raw, disclosure of the server address by the I command, any state change caused by a DNS or raw event) implies an authenticated, live, source-checked slot; '
+        'refused commands leave the state unchanged and produce exactly the refusal reply; trace theorems: an authenticated slot in any reachable state has a login '
+        'event after its last allocation, and a replayed response only works if it equals the response for the current seed. Tied to iodined.c by per-event '
+        'correspondence on server histories plus a monitor that re-derives "who was allowed to do this" from the inputs as the C reads them.',
+   note='Trusts: login() as an uninterpreted oracle (C19 covers what it computes); the public A record for ns.<domain> carries the same address as the I reply '
+        '(scope note, example in the property file); Coq kernel; translator; extraction; gcc.',
+   technique='Coq proof (exact refusal/effect classification of every handler, per-step slot-change classification, trace induction with ghost "since"), differential correspondence, implementation-level monitor',
+   design='4/C03')
+CHECKS['C04'] = dict(
+   text='Coq theorems over the server model: with source checking on, a request naming a session from another address or family is refused with the state unchanged; '
+        'a slot\'s bound address changes only by allocation or a correct raw login; a tun packet (and a client-to-client forward) goes to exactly the least live, '
+        'authenticated, enabled slot owning the destination address, unique on every reachable table (link to the C18 pool theorems), and changes no other slot; '
+        'a slot is (re)allocated only when inactive or silent for more than the timeout and no lower slot is available, leaving all other slots untouched; '
+        'requests to an expired session are refused; boundary behaviour at exactly 60 s stated. Tied to iodined.c/user.c by per-event correspondence on server '
+        'histories and a monitor tracking address bindings, expiry and routing.',
+   note='Trusts: after a raw-login rebind a query still held from the previous address is answered to that address (same session; the monitor accepts every '
+        'address a slot was bound to since its allocation); Coq kernel; translator; extraction; gcc.',
+   technique='Coq proof (frame lemmas per handler, uniqueness of the routing target from the C18 pool invariant, allocation characterisation), differential correspondence, implementation-level monitor',
+   design='4/C04')
 NOT_YET = {}
 
 def main():
